@@ -110,6 +110,10 @@ def build_model(coq_state):
         return exe
 
 
+class HarnessBuildError(Exception):
+    """the correspondence harness does not compile against the current source"""
+
+
 def build_harness():
     """rebuild the harness against /repo's current working tree (path dependency), hooks on."""
     with Lock("cargo"):
@@ -134,7 +138,14 @@ def build_harness():
             hook = False
         if p.returncode != 0:
             log(p.stdout[-6000:])
-            raise SystemExit(2)
+            # is it the crate itself that does not build (not our business: exit 2), or only the harness against it?
+            q = subprocess.run("cargo build --offline --features slice_cache,bitcoin,bitcoin_hashes,sha2,redb 2>&1", shell=True, cwd=REPO,
+                               env=dict(env, CARGO_TARGET_DIR=os.path.join(BUILD, "cargo-crate")), capture_output=True, text=True)
+            if q.returncode != 0:
+                log("tooling failure: the crate itself does not build:\n" + q.stdout[-3000:])
+                raise SystemExit(2)
+            errs = [ln for ln in p.stdout.splitlines() if ln.startswith("error")]
+            raise HarnessBuildError("\n".join(errs[:6]) or p.stdout[-1500:])
         exe = os.path.join(BUILD, "cargo", "debug", "bsharness")
         # copy so that a concurrent rebuild cannot swap the binary under a running check
         return exe, hook
